@@ -389,12 +389,22 @@ def run_check_locked(pid, tier, seed, replay=None, n_override=None):
     # 5. decide
     known = [k for k in load_known() if k["property"] == pid]
     known_sigs = {k["sig"]: k for k in known}
-    seen_known, new_viol = {}, []
+    # a harness borrowed from another property ("known_from": "<ID>") also reports that property's
+    # recorded findings; they are findings about the lender, not violations of this property
+    lender_known = {}
+    for hi, h in enumerate(cfg.get("harness", [])):
+        if h.get("known_from"):
+            lender_known[hi] = {k["sig"] for k in load_known() if k["property"] == h["known_from"]}
+    seen_known, new_viol, ignored_lender = {}, [], set()
     for r in monitor_hits:
         if r["sig"] in known_sigs:
             seen_known.setdefault(r["sig"], r)
+        elif r["sig"] in lender_known.get(r["harness"], ()):
+            ignored_lender.add(r["sig"])
         else:
             new_viol.append(r)
+    if ignored_lender:
+        log.append("recorded findings of the lending property seen in a borrowed harness (not this property's): %s" % sorted(ignored_lender))
     lines = []
     for sig, r in seen_known.items():
         lines.append("KNOWN-FINDING: property=%s %s (%s; case %s: %s)" % (
